@@ -55,10 +55,11 @@ def find_codec(c):
         argc = inst.get('argc', 0)
         params = L[1:argc + 1]
         ret = L[0]
-        for ty, tag in (('types::Message', 'Message'), ('types::HubMessage', 'HubMessage')):
-            if argc == 2 and params[0] == ty and ret.startswith('core::result::Result<soroban_sdk::Bytes,'):
+        for tag in ('Message', 'HubMessage'):
+            # the message types are matched by name, whatever module they live in
+            if argc == 2 and re.fullmatch(r'(\w+::)*' + tag, params[0]) and ret.startswith('core::result::Result<soroban_sdk::Bytes,'):
                 out.setdefault('<impl types::%s>::abi_encode' % tag, key)
-            if argc == 2 and ret.startswith('core::result::Result<%s,' % ty) and '&soroban_sdk::Bytes' in params and '&soroban_sdk::Env' in params:
+            if argc == 2 and re.match(r'core::result::Result<(\w+::)*%s,' % tag, ret) and '&soroban_sdk::Bytes' in params and '&soroban_sdk::Env' in params:
                 out.setdefault('<impl types::%s>::abi_decode' % tag, key)
     return out
 
@@ -90,13 +91,13 @@ def check(P, rep):
     rep.floor('alloy decode call sites', nd, 5)
     # R4 type table
     for name, spec in SPEC_STRUCTS.items():
-        a = c.adts.get('abi::' + name)
+        a = adt_of(c, name, lambda a_: any(f['name'] == 'messageType' for f in a_['variants'][0]['fields']))
         got = [(f['name'], short_ty(f['ty'])) for f in a['variants'][0]['fields']] if a else None
         rep.check(got == spec, 'C10.R4', 'layout:' + name, 'sol struct %s has the ITS wire layout' % name, CN, str(got))
-    a = c.adts.get('abi::MessageType')
+    a = adt_of(c, 'MessageType', lambda a_: any(v['name'].startswith('__') for v in a_['variants'])) or adt_of(c, 'MessageType')
     got = [(v['name'], int(v['discr'])) for v in a['variants'] if not v['name'].startswith('__')] if a else None
     rep.check(got == SPEC_TAGS, 'C10.R4', 'tags', 'message type tags are 0..4 in spec order', CN, str(got))
-    ra = c.adts.get('types::MessageType')
+    ra = adt_of(c, 'MessageType')
     # graphs of the four codec functions
     fns = {}
     found = find_codec(c)
@@ -108,7 +109,7 @@ def check(P, rep):
         fns[nm] = P.graph_at(CN, k, nm.replace('<impl types::', '').replace('>', ''))
     if len(fns) != 4:
         return
-    hub_adt = c.adts.get('types::HubMessage')
+    hub_adt = adt_of(c, 'HubMessage')
     hub_fields = {v['name']: [f['name'] for f in v['fields']] for v in hub_adt['variants']} if hub_adt else {}
     enc_maps, dec_maps = {}, {}
     # ---- encoders
@@ -362,7 +363,7 @@ def dec_shape_ok(fname, t, level):
     if fname in ('name', 'symbol', 'destination_chain', 'source_chain'):
         return c[0] == 'call' and c[1].endswith('soroban_sdk::String::from_str') and _src_ref(c[2][1])
     if fname == 'message' and level == 'hub':
-        return find(t, lambda s: s[0] == 'variant' and s[1].endswith('types::Message')) is not None
+        return find(t, lambda s: s[0] == 'variant' and s[1] == 'Message') is not None
     return _src_ref(c)
 
 
